@@ -5,6 +5,7 @@
 /**************************************************************************/
 
 #include "MetaOptimizer.h"
+#include <cmath>
 #include "../../App/ApplicationTools.h"
 
 using namespace bpp;
@@ -103,7 +104,11 @@ void MetaOptimizer::doInit(const ParameterList& parameters)
   // Start from the point given to init(), as every other optimizer does
   // (not from wherever the function currently is):
   getFunction()->setParameters(getParameters());
-  initialValue_ = getFunction()->getValue();
+  // The precision schedule goes from the magnitude of the initial value down to the tolerance:
+  // a negative (or null) value must not turn it into NaN.
+  initialValue_ = std::abs(getFunction()->getValue());
+  if (!(initialValue_ > 0.) || std::isinf(initialValue_))
+    initialValue_ = 1.;
   // Reset counter:
   stepCount_ = 1;
   // Recompute step if precision has changed:
